@@ -287,7 +287,7 @@ def validate_stg(sc, runs, parallel=None):
         c = r["scn"]["cfg"]["counts"]
         d = sc.specdir()
         cfg = vlib.cfg_text({"TracePath": p, "MaxCnt": max([3] + list(c.values()))}, init="TraceInit", nxt="TraceNext", post="Accepted",
-                            extra='CONSTANT Faults = {"none", "close", "garbage"}\nCONSTRAINT HighWater')
+                            extra='CONSTANT Faults = {"none", "close", "closeafter", "garbage"}\nCONSTRAINT HighWater')
         t = vlib.run_tlc(d, "TraceStg", cfg, timeout=600, workers=1, heap="2g")
         shutil.rmtree(d, ignore_errors=True)
         return (r, t)
